@@ -211,6 +211,9 @@ def sym_range(*a):
     return builtins.range(*[(v.__index__() if isinstance(v, SInt) else v) for v in a])
 
 
+_GROUPS = {}
+
+
 def _group_key(v):
     if isinstance(v, dict):
         try:
@@ -237,34 +240,46 @@ def sym_getitem(a, i):
             if any(v is None for v in los):
                 return mk(t)
             return mk(t, min(los), max(his))
-        groups = {}
-        order = []
-        for k in range(n):
-            g = _group_key(a[k])
-            if g not in groups:
-                groups[g] = []
-                order.append(g)
-            groups[g].append(k)
-        conds = []
-        reps = []
+        ent = _GROUPS.get(id(a))
+        if ent is None or ent[0] is not a or ent[1] != n:
+            groups = {}
+            order = []
+            for k in range(n):
+                g = _group_key(a[k])
+                if g not in groups:
+                    groups[g] = []
+                    order.append(g)
+                groups[g].append(k)
+            cls = [groups[g] for g in order]
+            v2c = {}
+            for ci, ks in enumerate(cls):
+                for kk in ks:
+                    v2c[kk] = ci
+            ent = (a, n, cls, v2c)
+            if isinstance(a, list) and n >= 16:
+                _GROUPS[id(a)] = ent          # static tables: keep (the reference pins the id)
+        classes = ent[2]
         t = i.t
-        for g in order:
-            ks = groups[g]
-            conds.append(_in_set(t, ks))
-            reps.append(ks[0])
-        # negative indices / out of range
-        conds.append(z3.Or(t < bvv(-n), t >= bvv(n)))
-        reps.append(None)
-        neg = [z3.And(t < bvv(0), t >= bvv(-n))]
-        conds.append(neg[0])
-        reps.append('neg')
-        k = eng.fork_classes(t, conds)
-        r = reps[k]
-        if r is None:
+        nc = len(classes)
+
+        def cond_of(k):
+            if k < nc:
+                return _in_set(t, classes[k])
+            if k == nc:
+                return z3.Or(t < bvv(-n), t >= bvv(n))
+            return z3.And(t < bvv(0), t >= bvv(-n))
+        v2c = ent[3]
+
+        def class_of_value(v):
+            if 0 <= v < n:
+                return v2c[v]
+            return nc if (v >= n or v < -n) else nc + 1
+        k = eng.fork_classes(t, nc + 2, cond_of, class_of_value)
+        if k == nc:
             raise IndexError('list index out of range')
-        if r == 'neg':
+        if k == nc + 1:
             return a[i.__index__()]
-        return a[r]
+        return a[classes[k][0]]
     if isinstance(i, SInt) and isinstance(a, dict):
         return a[i.__index__()]
     if isinstance(i, SInt) and isinstance(a, (str, bytes)):
